@@ -48,6 +48,11 @@ func decomposer(m string, K, T uint) dict.Decomposer {
 
 func c09Case(g *Gen, m string, x *big.Int, K, T uint) {
 	before := new(big.Int).Set(x)
+	// history: the terms of an earlier decomposition are overwritten by the caller; a second call must
+	// not be affected (no term may be shared storage)
+	for _, t := range decomposer(m, K, T).Decompose(new(big.Int).Set(x)) {
+		c19scribble(t.D)
+	}
 	s := decomposer(m, K, T).Decompose(x)
 	d := s.Dictionary()
 	g.Line("c09", m, before.String(), fmt.Sprint(K), fmt.Sprint(T), encTerms(s), encInts(d), b01(before.Cmp(x) == 0))
